@@ -59,6 +59,10 @@ CLAIMED['C15'] = ('fault_enumeration', 'deterministic simulation: seeded key-sto
     'For each seeded history (update/delete/delete_all/get/get_all/get_resolving_keys over 3 peers x 3 namespaces + a default-namespace instance on one file, all PairingKeys field-presence combinations) a fault-free run is compared operation by operation with a reference map (replace and overlay update semantics side by side, default-namespace rule from the class docstring), then the history is re-run once per file-system step of every mutating operation with a process crash before/after that step or EIO/ENOSPC before it: the file must parse and equal the complete previous or complete new state of all namespaces, and the rest of the history must still behave like the model on the surviving tree. The fault space per history is enumerated completely; histories are sampled.',
     'Trusted: SimFS process-crash model (flushed writes survive, user-space buffers do not, rename atomic, inode semantics); power-loss semantics are not claimed.', 'DESIGN.md §5 C15')
 
+CLAIMED['C16'] = ('fault_enumeration', 'deterministic simulation: seeded (procedure, fault kind, latency profile, bystander connection) cases; the fault is enumerated at every air-message boundary of the procedure',
+    'One awaited procedure per case out of 32 (GATT read/long read/write/discovery/subscribe/notify+read, EATT CCCD write, server indication, pair, encrypt, LE CoC connect/disconnect/drain, connection parameter update over L2CAP, remote features, pending LE and BR/EDR connect, pending disconnect, queued HCI commands, classic channel connect/disconnect, ERTM transfer, RFCOMM start/open/drain, SDP continuation query, AVDTP discover, remote name/features). A fault-free run counts the N messages the procedure exchanges over the air; the case is re-run once for every k in 0..N with a disconnection by the initiator side, by the responder side, a supervision timeout reported by both controllers, or loss of the HCI transport of either side, fired right after air message k, optionally with a second idle connection on the initiator. Oracle after quiescence + up to 60 virtual seconds: no awaited call still pending; Host.connections == Device.connections == controller tables on every reachable node (host == device behind a lost transport), both ends of each link agree, no subscription / pending indication / SMP session / L2CAP channel, identifier or request entry / queued packet remains for the dead handle, and the untouched connection is still there and answers a request. The boundary space per case is enumerated completely; cases are sampled.',
+    'Trusted: supervision timeout emulated by the virtual controllers reporting Disconnection Complete (0x08); controller entries with handle 0 are pages in progress; a waiter ending with any result, error or cancellation is accepted.', 'DESIGN.md §5 C16')
+
 CLAIMED['C13'] = ('exploration', 'deterministic simulation: seeded pairing configurations, user answers with delays, in-flight SMP corruption, reconnection in both roles; association-model table enumerated',
     'All 100 cells of the association-model table (5x5 IO capabilities x legacy/SC x MITM) are walked in every tier; seeded search over SC/MITM/bonding and 4-bit key-distribution masks per side, central- or peripheral-initiated pairing, user answers (reject, wrong passkey, compare no, confirm no, delays, passkey 000000), one SMP PDU corrupted in flight, a second pairing on the same connection, then reconnection in the same and in swapped roles with encrypt(). Oracle: pair() and the responder event both conclude, both succeed or both fail, link encrypted, association model and display/input roles equal the transcribed Table 2.8, key authenticated flags <=> passkey/numeric comparison, SC LTKs equal, legacy copies equal what the peer generated, no keys after a forced failure, and on reconnection the key in LE Enable Encryption equals the key in the peripheral Long Term Key Request Reply. Sampling, not proof.',
     'Trusted: transcription of Table 2.8 (DESIGN.md App. C); identity address type = static random so that bonded keys are found by address; OOB and CTKD over BR/EDR not covered; LTK request event injected because the virtual controller grants encryption by itself.', 'DESIGN.md §5 C13')
